@@ -1125,6 +1125,12 @@ impl Transaction {
                 error!("staking transaction spends more than it has available");
                 return false;
             }
+            // a staking transaction's fee counts as routing work like any other transaction's :
+            // a routing path, if there is one, has to be cryptographically valid
+            if !self.validate_routing_path() {
+                error!("ERROR 482034: routing paths do not validate, staking transaction invalid");
+                return false;
+            }
 
             return true;
         }
